@@ -204,7 +204,7 @@ Definition sp_step (s : sess) (now : Z) (m : msg) (enc : bytes) : bool * sess * 
       if s_closed s then
         (false, (if appended then w_batch tosend s else s), [], [])
       else
-        (true, w_batch [] (w_last_sent now s), out_events tosend, (if appended then [] else enc))
+        (true, w_batch [] (w_last_sent now s), out_events tosend, enc)
     else
       (true, w_batch (s_batch s ++ enc)%list s, [], enc).
 
@@ -213,14 +213,14 @@ Definition sp_fin (sc : schema) (m : msg) (is_dup : bool) (r : bool * sess * lis
   if negb ok then (false, s1, evs)
   else if is_dup then (true, s1, evs)
   else
+    let increment := (m_custom m =? 0) && negb (m_noinc m) && negb (beq (m_type m) mt_sequence_reset) in
     let per1 :=
       if p_attached (s_per s1) then
         let p0 := if is_admin sc (m_type m) then s_per s1 else p_put (s_per s1) (s_next_send s1) ptr in
-        p_put_ctrl p0 (s_next_send s1 + 1) (s_next_recv s1)
+        p_put_ctrl p0 (if increment then s_next_send s1 + 1 else s_next_send s1) (s_next_recv s1)
       else s_per s1 in
     let s2 := w_per per1 s1 in
-    let s3 := if (m_custom m =? 0) && negb (m_noinc m) && negb (beq (m_type m) mt_sequence_reset)
-              then w_next_send (s_next_send s2 + 1) s2 else s2 in
+    let s3 := if increment then w_next_send (s_next_send s2 + 1) s2 else s2 in
     (true, s3, evs).
 
 Lemma send_process_stages : forall sc now s m,
